@@ -1561,6 +1561,31 @@ _resource_tracker""")),
                         else:
                             registry[rtype][name] += 1""", """                        registry[rtype][name] += 1""")),
 
+    M("once-cancelled-item-not-removed", ["C03", "C01"], ["R-ONCE"],
+      (PE, """                else:
+                    del self.pending_work_items[work_id]
+                    continue""", """                else:
+                    continue""")),
+    M("result-put-without-write-lock", ["C04"], ["R-PAIR"],
+      (QU, """        else:
+            with self._wlock:
+                self._writer.send_bytes(obj)""", """        else:
+            self._writer.send_bytes(obj)""")),
+    M("result-pickled-under-write-lock", ["C04"], ["R-PAIR"],
+      (QU, """        # serialize the data before acquiring the lock
+        obj = dumps(obj, reducers=self._reducers)
+        if self._wlock is None:
+            # writes to a message oriented win32 pipe are atomic
+            self._writer.send_bytes(obj)
+        else:
+            with self._wlock:
+                self._writer.send_bytes(obj)""", """        if self._wlock is None:
+            # writes to a message oriented win32 pipe are atomic
+            self._writer.send_bytes(dumps(obj, reducers=self._reducers))
+        else:
+            with self._wlock:
+                self._writer.send_bytes(dumps(obj, reducers=self._reducers))""")),
+
 ]
 
 
